@@ -52,8 +52,16 @@ fn main() {
         "C02" => run_prop(holder::C02, tier, seed, replay),
         "C03" => run_prop(c03::C03, tier, seed, replay),
         "C17" => run_prop(c17::C17, tier, seed, replay),
+        "C04" => run_prop(c04::C04, tier, seed, replay),
+        "C05" => run_prop(c05::C05, tier, seed, replay),
+        "C06" => run_prop(c06::C06, tier, seed, replay),
+        "C07" => run_prop(c07::C07, tier, seed, replay),
+        "C08" => run_prop(c08::C08, tier, seed, replay),
+        "C09" => run_prop(c09::C09, tier, seed, replay),
         "C12" => run_prop(c12::C12, tier, seed, replay),
+        "C13" => run_prop(c13::C13, tier, seed, replay),
         "C16" => run_prop(c16::C16, tier, seed, replay),
+        "C18" => run_prop(c18::C18, tier, seed, replay),
         "C19" => run_prop(c19::C19, tier, seed, replay),
         _ => {
             eprintln!("unknown property {}", id);
